@@ -558,3 +558,22 @@ def implies_le(facts, a, b):
                 seen.add(y)
                 st.append(y)
     return False
+
+
+def implies_le_const(facts, a, k):
+    """do the facts imply a <= k for the integer k (order closure of implies_le plus the constant bounds on the facts' terms)"""
+    if const_int(a) is not None:
+        return const_int(a) <= k
+    for f in facts:
+        x = None
+        if f[0] == "eq":
+            for u, v in ((f[1], f[2]), (f[2], f[1])):
+                if const_int(v) is not None and const_int(u) is None and const_int(v) <= k:
+                    x = u
+        elif f[0] == "lt" and const_int(f[2]) is not None and const_int(f[2]) - 1 <= k:
+            x = f[1]
+        elif f[0] == "le" and const_int(f[2]) is not None and const_int(f[2]) <= k:
+            x = f[1]
+        if x is not None and implies_le(facts, a, x):
+            return True
+    return False
